@@ -35,6 +35,26 @@ pub fn run(op: &str, args: &[&str]) -> Option<String> {
             let len = VarInt(n).consensus_encode(&mut buf).unwrap();
             Some(format!("OK {} {}", show_hex(&buf), len))
         }
+        ("varint_sweep", [h]) => {
+            let pre = unhex(h)?;
+            let (mut nok, mut sv, mut sc, mut hh): (u128, u128, u128, u128) = (0, 0, 0, 7);
+            let m: u128 = 2305843009213693951;
+            for b12 in 0..65536u32 {
+                let mut s = pre.clone();
+                s.push((b12 / 256) as u8);
+                s.push((b12 % 256) as u8);
+                match deserialize_partial::<VarInt>(&s) {
+                    Ok((v, c)) => {
+                        nok += 1;
+                        sv += v.0 as u128;
+                        sc += c as u128;
+                        hh = (hh * 1000003 + ((v.0 as u128) * 16 + c as u128)) % m;
+                    }
+                    Err(_) => hh = (hh * 1000003 + 1) % m,
+                }
+            }
+            Some(format!("OK {} {} {} {}", nok, sv, sc, hh))
+        }
         ("varint_rt", [n]) => {
             let n: u64 = n.parse().ok()?;
             let buf = monero::consensus::encode::serialize(&VarInt(n));
